@@ -53,6 +53,7 @@ func (h msgHeap) Less(i, j int) bool {
 }
 func (h msgHeap) Swap(i, j int)       { h[i], h[j] = h[j], h[i] }
 func (h *msgHeap) Push(x interface{}) { *h = append(*h, x.(*Msg)) }
+func (h *msgHeap) pushMsg(m *Msg) { heap.Push(h, m) }
 func (h *msgHeap) Pop() interface{} {
 	old := *h
 	n := len(old)
@@ -88,6 +89,10 @@ type RunCfg struct {
 	LateJoin   bool    `json:"late_joiner"`
 	CacheKinds []string `json:"cache_configs"`
 	SyncSuffix bool    `json:"synchronous_suffix"`
+	Forger     bool    `json:"forger"`
+	Relabel    bool    `json:"part_relabeller"`
+	NoisePct   int     `json:"noise_pct"`
+	Filters    bool    `json:"message_class_filters"`
 }
 
 // Sim is one run.
@@ -121,6 +126,14 @@ type Sim struct {
 	h   *core.Hasher
 	ah  *core.Hasher
 	mon *monitors
+
+	byz        []*Byz
+	blocks     map[string]*knownBlock
+	blocksByH  map[uint64][]*knownBlock
+	forged     map[string]string
+	bogusParts map[int]int
+	filters    []*classFilter
+	healAt     time.Duration
 
 	steps     int
 	maxSteps  int
@@ -262,6 +275,13 @@ func (s *Sim) liveNodes() []*kit.Node {
 func (s *Sim) schedule(m *Msg) {
 	if s.cut[[2]int{m.Src, m.Dst}] {
 		s.res.Fault("partition-drop")
+		if m.Key != "" {
+			s.backoff(m.Key, true)
+		}
+		return
+	}
+	if s.filtered(m) {
+		s.res.Fault("class-filter-drop")
 		if m.Key != "" {
 			s.backoff(m.Key, true)
 		}
@@ -445,6 +465,8 @@ func (s *Sim) loop(goal func() bool, maxSim time.Duration) {
 		if s.now() > deadline {
 			return
 		}
+		s.maybePartition()
+		s.maybeFilter()
 		s.gossip()
 		s.adversaryStep()
 		now := s.now()
